@@ -35,7 +35,8 @@ TRUSTED = [
 ASSUMPTIONS = [
     "single fiber: exceptions do not cross fibers (C09 owns fibers); the value stack limit (16384 slots) is not modelled",
     "the error position registers (error_ip) are not state of M (C17)",
-    "captured variables are outside the mini-language (closing upvalues on unwinding is C06)",
+    "captured variables are outside the Coq mini-language (M, theorems); they are covered by the decorated family whose oracle "
+    "is the full reference interpreter SpecScripts.run_case (other owners' files)",
 ]
 
 FINDINGS_PATH = os.path.join(yvlib.VERIF, "notes", "C08-findings.json")
@@ -865,7 +866,7 @@ def run_decorated(ctx, items):
     srcs = [decorate(p, sd) for p, sd in items]
     recs = yvlib.run_harness(ctx.harness("release"), ["trace - 20000 " + hx(s_) for s_ in srcs], case_timeout_ms=10000)
     terms = ['run_case 400 [] "%s"' % binascii.hexlify(s_.encode()).decode() for s_ in srcs]
-    vals = yvlib.coq_eval(["YV:SpecScripts"], terms, shard_size=max(4, (len(terms) + 31) // 32), tag="C08deco",
+    vals = yvlib.coq_eval(["YV:SpecScripts"], terms, shard_size=max(4, min(40, (len(terms) + 31) // 32)), tag="C08deco",
                           preamble="Open Scope string_scope.\n")
     return [(s_, impl_result(r), ref_result(v), r) for s_, r, v in zip(srcs, recs, vals)]
 
@@ -1012,7 +1013,7 @@ def refspec_compare(ctx, results, stats, tag):
         return
     rs = [r for r in results if r["wf"]]
     terms = ['run_case 300 [] "%s"' % binascii.hexlify(r["src"].encode()).decode() for r in rs]
-    vals = yvlib.coq_eval(["YV:SpecScripts"], terms, shard_size=max(4, (len(terms) + 31) // 32), tag="C08ref" + tag,
+    vals = yvlib.coq_eval(["YV:SpecScripts"], terms, shard_size=max(4, min(60, (len(terms) + 31) // 32)), tag="C08ref" + tag,
                           preamble="Open Scope string_scope.\n")
     stats.setdefault("refspec_compared", 0)
     stats.setdefault("refspec_disagree", 0)
@@ -1081,8 +1082,8 @@ def run(ctx):
     results = evaluate(ctx, uniq, "gen", ndebug=min(len(uniq), nsys if quick else nsys + 600))
     for r in results:
         judge(ctx, r, stats)
-    refspec_compare(ctx, results if not quick else results[:nsys + 120], stats, "gen")
-    closure_family(ctx, results, stats, 260 if quick else 3000)
+    refspec_compare(ctx, results[:nsys + (120 if quick else 3000)], stats, "gen")
+    closure_family(ctx, results, stats, 260 if quick else 1500)
     finish(ctx, stats, results)
 
 
